@@ -151,7 +151,7 @@ def rule_early_exit(ctx):
                               "`can't get better than this` early exit compares the bonus with %s: %s — a later, better-placed occurrence is never examined (the best-placed occurrence must win)" % (show(e[3]), "; ".join(bad)))
             else:
                 ctx.ok(site(fn, bi), "early exit threshold %s dominates every value of bonus_for in all %d constructible configurations" % (show(e[3]), len(cfgs)))
-    ctx.floor("`cannot get better` early exits", n, 6)
+    ctx.floor("`cannot get better` early exits", n, 3)
 
 
 def rule_prefix_additive(ctx):
